@@ -497,6 +497,44 @@ def pool_running(kind, pool):
         return False
 
 
+def _default_call_child(conn, avail, st, system):
+    """Runs in a forked child restricted to `avail` CPUs: the default-sized batched call."""
+    try:
+        cpus = sorted(os.sched_getaffinity(0))[:avail]
+        os.sched_setaffinity(0, cpus)
+        try:  # the documented helper behind the default; if a refactor removes it only the call itself is judged
+            from pydrex import utils as _u
+
+            w = int(_u.default_ncpus())
+        except Exception:  # noqa: BLE001
+            w = None
+        exc, got = call_indices(st, system)
+        conn.send((len(os.sched_getaffinity(0)), w, exc, None if got is None else got.tolist()))
+    except BaseException as ex:  # noqa: BLE001
+        conn.send((None, None, f"harness:{type(ex).__name__}: {ex}", None))
+    finally:
+        conn.close()
+
+
+def default_call(avail, st, system):
+    ctx = mp.get_context("fork")
+    a, b = ctx.Pipe(duplex=False)
+    p = ctx.Process(target=_default_call_child, args=(b, avail, st, system))
+    p.start()
+    b.close()
+    try:
+        if not a.poll(300):
+            raise MachineryError("default-sized batched call did not finish within 300 s")
+        out = a.recv()
+    finally:
+        p.join(10)
+        if p.is_alive():
+            p.kill()
+    if out[2] and str(out[2]).startswith("harness:"):
+        raise MachineryError(out[2])
+    return out
+
+
 def pool_lifecycle_binding(chk, behs, tier):
     """PoolLife.tla behaviours on a real process pool, a real thread pool and the harness pool."""
     if impl()["diagnostics"].HAS_RAY:
@@ -519,7 +557,20 @@ def pool_lifecycle_binding(chk, behs, tier):
                         pools[a["p"]].join()
                     continue
                 st = stacks[a["n"]]
-                if a["a"] == "CallOwn":
+                if a["a"] == "CallDefault":
+                    have = len(os.sched_getaffinity(0))
+                    if a["avail"] > have:
+                        chk.skip(f"CallDefault with {a['avail']} CPUs: only {have} available to the check")
+                        continue
+                    got_avail, w, exc, got = default_call(a["avail"], st, system)
+                    got = None if got is None else np.asarray(got, dtype=np.float64)
+                    if got_avail != a["avail"]:
+                        raise MachineryError(f"could not restrict the child to {a['avail']} CPUs (got {got_avail})")
+                    if w is not None and w != a["w"]:
+                        chk.violation(dict(clause="default-worker-count", avail=a["avail"]),
+                                      f"with {a['avail']} CPU(s) available default_ncpus() returns {w}; the documented safe default is {a['w']} (one less than available, fallback 1)",
+                                      dict(kind="pool-life", behaviour=beh, step=step))
+                elif a["a"] == "CallOwn":
                     exc, got = call_indices(st, system, ncpus=2)
                 else:
                     exc, got = call_indices(st, system, pool=pools[a["p"]])
@@ -528,7 +579,7 @@ def pool_lifecycle_binding(chk, behs, tier):
                 if a["a"] == "CallOnClosed":
                     continue   # named deviation, promised by no property
                 if exc != "None" or not same_bits(got, exp[a["n"]]):
-                    chk.violation(dict(clause="pool-reuse", pool=a.get("p", "own"), action=a["a"]),
+                    chk.violation(dict(clause="pool-reuse", pool=a.get("p", "own"), action=a["a"], avail=a.get("avail", 0)),
                                   f"call {step + 1} of {[(x['a'], x.get('p')) for x in beh]}: misorientation_indices returned {None if got is None else got.tolist()} ({exc}); per-snapshot values {exp[a['n']].tolist()}",
                                   dict(kind="pool-life", behaviour=beh, step=step))
                     break
